@@ -252,6 +252,10 @@ def setLevel (s : Srv) (level : Int) : Srv × Bool :=
 def defaultLevel : Int := 1
 def initSrv : Srv := applyLevel { level := 0, advert := [] } defaultLevel
 
+/-- `NewHttpServerWithKey`: the keyed constructor ends with the same
+`applyCompressionLevel(DefaultCompressionLevel)` on a freshly zeroed struct. -/
+def initSrvWithKey : Srv := applyLevel { level := 0, advert := [] } defaultLevel
+
 /-! ## one response -/
 
 /-- Which response header carries the codec. -/
